@@ -12,6 +12,16 @@ import os
 from . import REPO
 
 
+_LINES = {}
+
+
+def source_lines(source):
+    k = id(source)
+    if k not in _LINES:
+        _LINES[k] = (source, source.splitlines())
+    return _LINES[k][1]
+
+
 class FuncInfo:
     def __init__(self, module, cls, node, source, path):
         self.module = module
@@ -32,7 +42,8 @@ class FuncInfo:
         self.is_static = "staticmethod" in self.decorators
         self.is_property = "property" in self.decorators
         self.is_setter = "setter" in self.decorators
-        seg = ast.get_source_segment(source, node) or ""
+        lines = source_lines(source)
+        seg = "\n".join(lines[node.lineno - 1 : node.end_lineno])
         self.sha256 = hashlib.sha256(seg.encode()).hexdigest()
         self.lines = (node.lineno, node.end_lineno)
 
@@ -129,7 +140,8 @@ class Program:
                     mod.imports[a.asname or a.name] = (node.module, a.name)
             elif isinstance(node, ast.Import):
                 for a in node.names:
-                    mod.imports[a.asname or a.name.split(".")[0]] = (a.name, None)
+                    # `import a.b.c` binds the top package `a`; `import a.b as x` binds the submodule
+                    mod.imports[a.asname or a.name.split(".")[0]] = (a.name if a.asname else a.name.split(".")[0], None)
 
     # ---- class table queries
     def mro(self, cname):
